@@ -183,6 +183,7 @@ def _lemmas_for(a, out):
         # consequences of being an identifier that the proofs use (all cheap string facts)
         out.append(z3.Implies(a, z3.And(z3.Length(t) > 0,
                                         z3.Not(z3.Contains(t, zstr('.'))), z3.Not(z3.Contains(t, zstr(':'))),
+                                        z3.Not(z3.Contains(t, zstr('::'))),
                                         z3.Not(z3.Contains(t, zstr(' '))), z3.Not(z3.Contains(t, zstr('\n'))),
                                         no_break(t), z3.Not(all_ws(t)),
                                         z3.Not(ws_char(first_char(t))))))
